@@ -58,6 +58,9 @@ type LockStep struct {
 	Via    string   `json:"via,omitempty"`     // stop: sigstop | ptrace
 	Dur    string   `json:"dur,omitempty"`     // steer: how long (at most) to let time pass
 	Hold   string   `json:"hold,omitempty"`    // start: run under the system-call tracer, one thread to be held at: liveness | cleanup
+	At     string   `json:"at,omitempty"`      // start/run: the entry point of the repository the process is started in (see c19EntryPoints; "" = the main work tree)
+	Record bool     `json:"record,omitempty"`  // start/run: the outcome is recorded, not judged (the statement is silent about the situation)
+	Plant  string   `json:"plant,omitempty"`   // plant: what the lock file put in place names (see c19PlantSpecs)
 }
 
 // LockSchedule is one replayable case.
@@ -155,6 +158,26 @@ var c19Pattern = []string{
 	"ho-race", "stopped", "ho-freeze", "traced", "ho-chain", "stopped",
 	"ho-race", "stopped", "ho-freeze", "traced", "ho-stale", "ho-race",
 	"ho-held", "ho-held",
+	// (45 entries up to here: rounds 1-4; kept in place)
+	// round 5: one repository entered through several directories (the position among the "entry"
+	// schedules chooses the holder's entry point, so that a quick run has every entry point as holder),
+	// planted stale locks over the whole range of pids (the position chooses the slice of the two lists)
+	"entry", "stalepid", "entry", "entry", "stalepid", "entry", "entry", "stalepid",
+}
+
+// c19Occurrence says which occurrence of its kind the i-th schedule of the list is.
+func c19Occurrence(i int) int {
+	kind := c19Pattern[i%len(c19Pattern)]
+	per, before := 0, 0
+	for k, v := range c19Pattern {
+		if v == kind {
+			per++
+			if k < i%len(c19Pattern) {
+				before++
+			}
+		}
+	}
+	return (i/len(c19Pattern))*per + before
 }
 
 // the two unprivileged accounts of the cross-uid schedules (no passwd entry needed)
@@ -379,6 +402,10 @@ func c19Schedule(seed int64, i int) LockSchedule {
 	case "ho-held":
 		s.Mode = []string{"liveness", "cleanup"}[(i%len(c19Pattern))%2]
 		shape = c19HeldSchedule(&s, rng)
+	case "entry":
+		shape = c19EntrySchedule(&s, rng, c19Occurrence(i))
+	case "stalepid":
+		shape = c19StalePidSchedule(&s, rng, c19Occurrence(i))
 	case "zombie":
 		sig := "SIGKILL"
 		add(LockStep{Op: "start", P: "H", Cmd: "webui", Wait: "ready", Lazy: true}, LockStep{Op: "observe", Tag: "holder ready"},
@@ -473,6 +500,7 @@ type C19Result struct {
 	PortBusy     bool   // a holder could not bind: retry on other ports
 	NotReached   string // the state the schedule is about could not be set up (hook point missing, window missed)
 	Outcomes     map[string]string
+	Notes        []string // "set|member" (or "counter|#") for the evidence: what the entry-point and planted-lock schedules saw
 }
 
 type c19Exec struct {
@@ -493,6 +521,11 @@ type c19Exec struct {
 	inLock   map[int]bool // pids seen in the lock file by watchOpeners
 	repoReal string       // e.repo with symbolic links resolved (as /proc shows paths)
 	nlong    int          // long-lived processes spawned so far
+	// third part (c19_entry.go)
+	atNext     string // the entry point of the next spawn
+	recordNext bool   // the next spawn is recorded, not judged
+	plantedPid int    // the pid named by the lock file planted last (0 = none, or not a pid a process can have here)
+	plantedTag string
 }
 
 const c19Watchdog = 60 * time.Second
@@ -544,6 +577,15 @@ func (e *c19Exec) observe(tag string) {
 	gb := filepath.Join(e.repo, ".git", "git-bug")
 	if data, err := os.ReadFile(filepath.Join(gb, "lock")); err == nil {
 		ev.LockExists, ev.LockContent = true, string(data)
+	} else if e.sc.Kind == "entry" {
+		// the statement does not say where the lock is kept: a lock file kept in the private git
+		// directory of a linked worktree is a lock file as well (when there is exactly one)
+		if alt, _ := filepath.Glob(filepath.Join(e.repo, ".git", "worktrees", "*", "git-bug", "lock")); len(alt) == 1 {
+			if data, err := os.ReadFile(alt[0]); err == nil {
+				rel, _ := filepath.Rel(e.repo, alt[0])
+				ev.LockExists, ev.LockContent, ev.Tag = true, string(data), tag+" [no .git/git-bug/lock; lock file found at "+rel+"]"
+			}
+		}
 	}
 	cmd := exec.Command("git", "for-each-ref")
 	cmd.Dir = e.repo
@@ -668,6 +710,11 @@ func (e *c19Exec) spawn(label, class, delays string, lazy bool, uid int) (*c19Pr
 		cmd = exec.Command("/bin/sh", append([]string{"-c", `kill -STOP $$; exec "$0" "$@"`, e.bin}, spec.argv...)...)
 	}
 	cmd.Dir = e.repo
+	at, record := e.atNext, e.recordNext
+	e.atNext, e.recordNext = "", false
+	if at != "" {
+		cmd.Dir = c19EntryDir(e.dir, at)
+	}
 	cmd.Env = os.Environ()
 	if delays != "" {
 		cmd.Env = append(cmd.Env, "VERIF_HOOK_DELAYS="+delays)
@@ -687,8 +734,12 @@ func (e *c19Exec) spawn(label, class, delays string, lazy bool, uid int) (*c19Pr
 	if realUid < 0 {
 		realUid = uid
 	}
-	e.log(refmodel.LockEvent{Kind: "spawn", Proc: p.id, Pid: p.pid, Class: spec.class, Argv: "git-bug " + strings.Join(spec.argv, " "),
-		Opens: spec.opens, Benign: spec.benign, Delays: delays, Uid: realUid, Long: spec.long})
+	argv := "git-bug " + strings.Join(spec.argv, " ")
+	if e.sc.Kind == "entry" {
+		argv += "` started in the " + c19EntryName(at) + " `" + strings.TrimPrefix(cmd.Dir, e.dir+"/")
+	}
+	e.log(refmodel.LockEvent{Kind: "spawn", Proc: p.id, Pid: p.pid, Class: spec.class, Argv: argv,
+		Opens: spec.opens, Benign: spec.benign && !record, Delays: delays, Uid: realUid, Long: spec.long})
 	if !lazy {
 		p.startWait()
 	}
@@ -1035,8 +1086,18 @@ func runLockSchedule(sc LockSchedule) (res C19Result) {
 				return
 			}
 			e.lns = append(e.lns, l)
+		case "layout":
+			if why := e.layout(); why != "" {
+				res.Inconclusive = "layout: " + why
+				return
+			}
+		case "plant":
+			if !e.plant(st) {
+				return
+			}
 		case "start", "run":
 			e.holdNext = st.Hold != ""
+			e.atNext, e.recordNext = st.At, st.Record
 			p, err := e.spawn(st.P, st.Cmd, st.Delays, st.Lazy, st.Uid)
 			if err != nil {
 				res.Inconclusive = "spawn: " + err.Error()
@@ -1073,6 +1134,9 @@ func runLockSchedule(sc LockSchedule) (res C19Result) {
 					break
 				}
 				e.await(st.P+" to exit", []*c19Proc{p}, func() bool { return p.loggedExit })
+				if !e.afterRun(st, p) {
+					return
+				}
 			case "resolved":
 				e.await(st.P+" to be ready or to exit", []*c19Proc{p}, func() bool { return p.loggedReady || p.loggedExit })
 			case "building":
@@ -1282,6 +1346,16 @@ func runC19(tier, replay string) int {
 			continue
 		}
 		findings, st := refmodel.CheckLockLog(res.Events)
+		for _, n := range res.Notes {
+			if k := strings.IndexByte(n, '|'); k > 0 && n[k+1:] == "#" {
+				r.Count(n[:k], 1)
+			} else if k > 0 {
+				r.Seen(n[:k], n[k+1:])
+			}
+		}
+		if sc.Kind == "entry" {
+			c19EntryStats(r, res.Events)
+		}
 		nontrivial := st.Attempts >= 2 && st.Observations >= 2
 		r.Case(sc.Shape, nontrivial)
 		r.Count("process_schedules", 1)
@@ -1404,7 +1478,7 @@ func runC19(tier, replay string) int {
 			r.Extra("traced_holder", "exercised: a tracer (vh child c19-ptrace) attaches to every thread of the holder and keeps them in a tracing stop (state t)")
 		}
 	}
-	for _, kind := range []string{"created", "xuid", "traced"} {
+	for _, kind := range []string{"created", "xuid", "traced", "entry", "stalepid"} {
 		if n := notReached[kind]; n > 0 {
 			// a harness message, not a verdict: the schedules are left out of the counts
 			fmt.Printf("HARNESS-NOTE property=C19 %d of %d %q schedules did not reach the situation they are about and were not counted (see schedules_not_reached in the evidence)\n", n, perKind[kind], kind)
@@ -1424,6 +1498,8 @@ func runC19(tier, replay string) int {
 		"ho-race / ho-freeze / ho-chain / ho-stale (hand-over: ready holder + 2..3 openers started 0..35 ms apart, mostly long-lived; race = the holder is signalled 0..320 ms after their start, optionally one more opener right after the signal; freeze = one opener is stopped with SIGSTOP at that moment, the holder closed and reaped, a fresh opener started, one of the others waited for, then the frozen one released; "+
 		"chain = the first openers get 320 ms to be turned away, the holder is signalled and two fresh openers started at once; stale = holder killed and reaped, then the openers started together; then every opener that becomes ready is observed, signalled, reaped, observed, until all are gone, and a last command must find the cache free); "+
 		"ho-held (a long-lived opener is run under a small system-call tracer, `vh child c19-hold`, which keeps ONE of its threads at the entry of the call by which it asks the kernel whether the pid it read from the lock file is alive — pidfd_open(pid)/kill(pid,0) — or, the holder having been killed before, at the entry of its unlink of the lock file; meanwhile the holder closes or is killed and is reaped and another long-lived opener is started and waited for; then the thread is let go, the lock file watched until it changes or the opener resolves, and the openers drained as above); "+
+		"entry (ONE repository entered through five directories: main work tree, a directory below it, a linked worktree made by stock `git worktree add`, a directory below that, a second linked worktree; each is first opened alone on the free cache - recorded; then a web UI holder is started in one of them - the position in the list chooses which, a quick run has all five - and an opener is run from each of the other four, 1 in 2 also from the holder's own, incl. long-lived ones; the holder is closed or killed and two more openers run from entry points chosen by the seed; same rules as contend, finding keys two-holders / refusal-...:holder-in-<entry>,opener-in-<entry>); "+
+		"stalepid (lock files as a dead holder leaves them are planted for process ids of 1 to 7 digits up to 4194303, lowest and highest values of 6 and 7 digits, and the pid of a process reaped a moment ago - values >= /proc/sys/kernel/pid_max or seen dead and far from being handed out again - each followed by a command that must open the cache, finding open-failed-without-holder:after-stale-lock-of-dead-<n>-digit-pid; other contents - 0, negative, sign, spaces, trailing newline, 10 bytes, 8 and 9 digits, PID_MAX_LIMIT and above, text - are planted too and what the open does is recorded, not judged; the position in the list chooses a third of both lists); "+
 		"the recorded event log is checked offline by refmodel.CheckLockLog; non-trivial = at least 2 resolved open attempts and 2 observations; distinct = distinct schedule shape (kind, holder, contender classes, signal, later openers)"+c19SweepRule,
 		r.Pick(12, 60)+sweepMin, append([]string{
 			"a process is taken to hold the cache from the moment it printed the cache-build banner or (web UI) its URL while owning its listening socket, until the harness signals it or it is reaped",
@@ -1433,6 +1509,8 @@ func runC19(tier, replay string) int {
 			"a short-lived command that runs freely is only taken to hold the cache at the observations that show its pid in the lock file while it has not been reaped; a long-lived one (web UI) from its first proof until it is signalled or reaped",
 			"a process stopped with SIGSTOP (all threads seen in state T) while the lock file exists and is empty, being the only live process of the schedule and the file being absent before its start, is a live process between its exclusive creation of the lock file and its pid write; that file is its lock",
 			"created / xuid / traced / ho-held schedules whose situation cannot be produced (hook point absent from the build, accounts not separable or no tracer attachable in this environment) are reported as not reached and left out of the counts",
+			"the work tree of a repository, the directories below it and its linked worktrees (git worktree add) are entry points of ONE repository with one cache: a process started in any of them opens that cache",
+			"a lock file naming a process id that no live process has (>= pid_max, or kill(pid,0) = ESRCH before and after the command) is the lock of a dead process, whatever the number of its digits up to PID_MAX_LIMIT-1",
 			"a thread kept by a tracer at the entry of a system call has not made that call; holding it there is an environment action (a thread can be held up anywhere, for any time) and nothing is derived from it but the suffix of the finding key",
 		}, c19SweepAssumptions...))
 	if rc == 0 && !sweepOK {
